@@ -12,4 +12,11 @@ def run(rep, fb, tier):
     run_family("C04", rep, fb, tier, EXTRAS)
 
 
-EXTRAS = []
+from ..rules import pyrules
+
+
+EXTRAS = [
+    lambda rep, fb, tier: pyrules.rule_py_borrowed(rep, ["_util.py", "_connect/_numpy.py", "highlevel.py", "behaviors/string.py", "operations/structure.py"], floor=10),
+    lambda rep, fb, tier: pyrules.rule_py_dispatch(rep, modules=["_util.py", "_connect/_numpy.py"], floor=5),
+    lambda rep, fb, tier: pyrules.rule_py_categories(rep),
+]
